@@ -10,7 +10,7 @@ CFG = {
             "Parse verdict, production callback sequence, ParseAndBuildAST tree and yield are compared with the proved model, the verdict also with an "
             "independent span-table recogniser and the production sequence with an independent leftmost-derivation replay.  Grammars with a table conflict get "
             "three inputs (Parse must return the table error).  A case is non-trivial when the table is conflict-free and at least one input is accepted and one rejected; "
-            "distinct = distinct grammars.",
+            "distinct = distinct grammars. Half of the grammars give terminal i and non-terminal i the same NAME; every case ends with rounds on its ONE grammar object: parse with new parser objects (MP/MA), with one parser object re-used for all inputs (RP), edit the grammar in place through its public API (Productions.Add/Remove, Terminals.Add), rebuild the table and parse again, compared with the model of the edited grammar.",
     "assumptions": ["the lexer is modelled as the token list followed by io.EOF forever; callbacks never fail",
                     "the parser loop runs on fuel in the model (20000 steps in the driver); C12_terminates proves that a long enough run always finishes and C12_fuel_monotone that its result no longer changes; exhaustion in the driver would be reported as HANG"],
 }
